@@ -158,7 +158,10 @@ CheckQuery(Q) ==
                  \cup UNION {SrvAdditionals(g, ifs, idx, Q.v4) : g \in Limbo(idx) \ srvAnswered}
       okAdd   == UNION {PtrAdditionals(g, ifs, idx, Q.v4) : g \in ptrAnswered}
                  \cup UNION {SrvAdditionals(g, ifs, idx, Q.v4) : g \in srvAnswered}
-      missing == fix(must) \ actAns
+      missingAll == fix(must) \ actAns
+      \* an answer left out although the query lists it with less than half its TTL (or with other rdata): C10's business
+      listed == {r \in missingAll : \E x \in ka : x.r.k = r.k /\ x.r.ty = r.ty}
+      missing == missingAll \ listed
       dottedOnly == missing # {} /\ \A r \in missing : \E g \in Limbo(idx) : g.dotted /\ r.k = g.fnk
       \* C07: a service that requires probing is not answered for on an interface where it has never been announced
       early == {r \in actAns \cup actAdd : \E k \in Dom(reg) :
@@ -167,7 +170,8 @@ CheckQuery(Q) ==
                       \/ (r.ty = "PTR" /\ r.rk = reg[k].fn)
                       \/ (r.k = reg[k].hostk /\ r.ty \in {"A", "AAAA"}
                           /\ ~\E k2 \in Dom(reg) : reg[k2].hostk = reg[k].hostk /\ <<k2, idx>> \in Dom(ann))}
-  IN V("C07.early-answer", early = {}, <<"answered for a name that is still being probed (never announced on this interface)", early>>)
+  IN V("C10.kept", listed = {}, <<"answer suppressed by a known answer that does not suppress it (TTL below half, or other rdata)", listed>>)
+     \cup V("C07.early-answer", early = {}, <<"answered for a name that is still being probed (never announced on this interface)", early>>)
      \cup V("C06.exact-missing", missing = {},
        <<IF dottedOnly THEN "question for an instance name with a dot inside a label is never matched (wire names are compared unescaped with escaped registered names)"
          ELSE "missing", missing>>)
